@@ -246,7 +246,9 @@ func checkParallelProtocol(c *an.Ctx, id string, d *delFns) {
 			sortc = call
 		}
 	})
-	is := func(x *ssa.Call) an.InstrPred { return func(in ssa.Instruction) bool { return in == ssa.Instruction(x) } }
+	is := func(x *ssa.Call) an.InstrPred {
+		return func(in ssa.Instruction) bool { return in == ssa.Instruction(x) }
+	}
 	if c.Check(closeJob != nil && wait != nil && sortc != nil, id, "shutdown-steps", "the dispatcher closes the job channel, waits for the workers and orders their results", par, nil, "", nil) {
 		okOrder := fl.MustPrecede(is(closeJob), wait) && fl.MustPrecede(is(wait), sortc)
 		for _, r := range ff.Returns() {
